@@ -873,12 +873,13 @@ func (c *otApplyContext) ligateInput(count int, matchPositions [maxContextLength
 }
 
 func (c *otApplyContext) recurse(subLookupIndex uint16) bool {
-	if c.nestingLevelLeft == 0 || c.recurseFunc == nil || c.buffer.maxOps <= 0 {
-		if c.buffer.maxOps <= 0 {
-			c.buffer.maxOps--
-			return false
-		}
-		c.buffer.maxOps--
+	// as in harfbuzz: nesting_level_left == 0 || !recurse_func || buffer->max_ops-- <= 0
+	if c.nestingLevelLeft == 0 || c.recurseFunc == nil {
+		return false
+	}
+	c.buffer.maxOps--
+	if c.buffer.maxOps < 0 {
+		return false
 	}
 
 	c.nestingLevelLeft--
